@@ -313,3 +313,26 @@ _ADDED5 = {
 }
 for _id, _more in _ADDED5.items():
     CHECKS[_id]["text"] += _more
+
+
+# what the sixth strengthening round added
+_ADDED6 = {
+    "C01": " Round 6: string keys that look like numbers; the images of the extended atoms are held against a golden table taken from the pinned tree.",
+    "C02": " Round 6: a refusal must be an error reply (a connection dropped without one is reported).",
+    "C04": " Round 6: converters registered under bare tags vs hostile tags ending in them; foreign tags wrapped in an _ExceptionWrapper must raise.",
+    "C05": " Round 6: accept() failing with EMFILE 3 / 8 / 20 times in a row while connections are pending.",
+    "C08": " Round 6: a wrong-type first message whose announced payload never arrives in full.",
+    "C09": " Round 6: schedules with COMMTIMEOUT set (bounded lock waits may run out).",
+    "C11": " Round 6: the effect of a normal batch must be there when the batch call returns.",
+    "C12": " Round 6: oneway batches (context of the members, executed before the client's next call); two workers inside Daemon.handleRequest with every source line a scheduling point.",
+    "C13": " Round 6: first use of a session class through a oneway call; hook assigned on the daemon instance; a tracked resource whose close() raises.",
+    "C14": " Round 6: tags containing '|' and ','.",
+    "C15": " Round 6: configurations with COMMTIMEOUT set.",
+    "C16": " Round 6: long-lived client connections that call again after every history step; falsy pool objects.",
+    "C17": " Round 6: sends of 60001 / 120001 bytes in timeout mode.",
+    "C18": " Round 6: a job still running when the pool is closed that then ends its worker thread.",
+    "C19": " Round 6: ports 0 / 000 / +0, upper-case hex digits in ipv6 hosts.",
+    "C20": " Round 6: percent signs left in object and member names after the WSGI server's decoding.",
+}
+for _id, _more in _ADDED6.items():
+    CHECKS[_id]["text"] += _more
